@@ -78,7 +78,9 @@ def case_st(draw):
         # one item in EVERY bucket, a reset, then a full turn of the ring: whatever the reset left behind in any bucket runs
         k = draw(st.integers(0, len(ops)))
         fill = [("S", off, off % 6, off, 255 - off, 1000 + off, draw(PRIO)) for off in range(25)]
-        ops = ops[:k] + fill + [("R",)] + [("F",)] * 26 + ops[k:]
+        # (also after 2, 255, 256, 257 or 512 resets in a row: counters of the reset must not wrap into "nothing to do")
+        nres = draw(st.sampled_from([1, 1, 2, 255, 256, 256, 257, 512]))
+        ops = ops[:k] + fill + [("R",)] * nres + [("F",)] * 26 + ops[k:]
     return {"start": draw(st.one_of(st.integers(0, 60), st.sampled_from([0, 23, 24, 25, 49]))), "ops": ops, "uchar": draw(st.booleans())}
 
 
